@@ -6,7 +6,7 @@ Open Scope Z_scope.
 
 Lemma fs_login_oracle_accepts pool maxp rid :
   0 <= maxp -> fs_login_oracle pool maxp rid = HAccept rid.
-Proof. intros H. unfold fs_login_oracle. now rewrite (chan_cap_nonneg pool maxp H). Qed.
+Proof. intros _. unfold fs_login_oracle. now rewrite (chan_cap_nonneg pool maxp). Qed.
 
 Theorem fs_accepted_login_survives reg tl tw tv force need wsp st ev st' out pool maxp rid :
   0 <= maxp -> fe_handler ev = fs_login_oracle pool maxp rid ->
